@@ -334,7 +334,7 @@ def _worker(items) -> dict:
                 hk = hint(T, variant, k)
                 if (len(tjson) + variant + k) % 2:
                     # the six retorts are derived from one base through replace(); the lax loaders are requested first
-                    base = Retort()
+                    base = Retort(strict_coercion=False)
                     rs = {(s, dt.name): base.replace(strict_coercion=s, debug_trail=dt) for s in (False, True) for dt in modes()}
                     base.get_loader(hk)
                 else:
